@@ -19,6 +19,7 @@ DOC = {
         'C08.R5': 'run_dedupe: no_check_size |= transform.is_some(); match_links |= header; rf_over defaulted only when None; isolated_roots defaulted only when empty and the header had --isolate; get_command_config re-bases on header.base_dir',
         'C08.R6': 'for every explicitly typed value_parser: <P as TypedValueParser>::Value == the T of remove_one::<T>/remove_many::<T> for the same argument id',
         'C08.R7': 'GroupConfig::rf_over() does not depend on `transform`',
+        'C08.R11': 'the order that decides which replicas are kept by default, and that --priority top / bottom refer to, is the order of the report: FileSubGroup::group puts the root groups first, so partition restores the input order with a stable sort keyed by the original position (recorded before grouping) before the priorities are applied and the keep/drop split is made',
         'C08.R10': 'the path patterns of the dedupe commands (--path, --keep-path) are matched against the absolute reported paths, so - like the path patterns of group (PathSelector::include_paths / exclude_paths) - they pass abs_pattern (anchoring of relative patterns at the working directory) on every path to dedupe(); sibling agreement between the two commands',
         'C08.R9': 'the isolate roots that reach partition - inherited from the header or given on the dedupe command line - are in the canonical form of the reported paths (re-evaluates C06.R6)',
         'C08.R8': 'the top-up to n counts retained sub-groups (re-evaluates C02.R1)',
@@ -38,6 +39,7 @@ def run(ctx):
     from . import c06
     reevaluate(ctx, 'C08.R9', c06.r6)
     r10(ctx)
+    r11(ctx)
     r4(ctx)
     r5(ctx)
     r6(ctx)
@@ -504,3 +506,38 @@ def r10(ctx):
     ctx.check(anchored >= want, rule, 'bin::run_dedupe|path-patterns-anchored', site, 'path_patterns and keep_path_patterns are anchored with abs_pattern before dedupe()',
               'the dedupe commands match %s verbatim against the absolute reported paths, while group anchors relative path patterns at the working directory: `remove --keep-path "d2/**"` '
               'protects nothing (d2/c is removed), `--path "d1/**"` removes nothing' % sorted(want - anchored))
+
+
+def r11(ctx):
+    rule = 'C08.R11'
+    lib = ctx.lib
+    b = ctx.need_body(rule, 'dedupe::partition')
+    if b is None:
+        return
+    grp = b.calls(r'FileSubGroup.*::group$')
+    part = b.calls(r'Iterator::partition$')
+    if not grp or not part:
+        ctx.missing(rule, 'FileSubGroup::group / Iterator::partition in partition', b.where())
+        return
+    G = grp[0]
+    roots_used = 'isolated_roots' in backslice(b, [G.args[1]]).field_names()
+    sorts = [c for c in b.calls(r'slice::<impl \[T\]>::(sort_by_key|sort_by|sort_by_cached_key)$|::(sort_by_key|sort_by|sort_by_cached_key)$') if b.dominates(G.bb, c.bb) and b.dominates(c.bb, part[0].bb)]
+    ok = False
+    site = G.where()
+    for c in sorts:
+        l = op_local(c.args[1]) if len(c.args) > 1 else None
+        cp = lib.closure_of_type(b.local_ty(l)) if l is not None else None
+        cr = closure_creation(lib, cp) if cp else None
+        if not cr:
+            continue
+        pb, bi, st = cr
+        # what the key closure captures: a table built from an enumeration made before the grouping
+        for o in st['rv'].get('ops', []):
+            sl = backslice(b, [o])
+            enums = [k for k in sl.calls if k.matches(r'Iterator::enumerate$') and b.dominates(k.bb, G.bb)]
+            if enums:
+                ok = True
+                site = c.where()
+    ctx.check(ok or not roots_used, rule, b.path + '|report-order-restored', site, 'after sub-grouping the sub-groups are sorted back into the order of the input file (positions recorded before grouping)',
+              'FileSubGroup::group returns the sub-groups of the isolated roots first, whatever their position in the report, and partition takes that for the order of the input file: with '
+              '`remove --isolate r1` the first listed file a/f is removed and r1/f kept, and `--priority bottom` removes the top file')
